@@ -168,6 +168,7 @@ type htr struct {
 	consts  map[string]bool
 	sentinels map[string]bool
 	embedded  map[string][]string // struct -> embedded struct types
+	modules   map[string]string   // group -> generated module text
 	fns     map[string]*hfn
 	errs    []string
 }
@@ -383,12 +384,29 @@ func heapMain(repo, out string) []string {
 	t.analyse()
 	src := t.render()
 	os.MkdirAll(filepath.Dir(out), 0o755)
-	old, _ := os.ReadFile(out)
-	if string(old) != src {
-		if err := os.WriteFile(out, []byte(src), 0o644); err != nil {
-			t.errs = append(t.errs, err.Error())
+	writeIfChanged := func(path, text string) {
+		old, _ := os.ReadFile(path)
+		if string(old) != text {
+			if err := os.WriteFile(path, []byte(text), 0o644); err != nil {
+				t.errs = append(t.errs, err.Error())
+			}
 		}
 	}
+	dir := filepath.Join(filepath.Dir(out), "Heap")
+	os.MkdirAll(dir, 0o755)
+	keep := map[string]bool{}
+	for g, text := range t.modules {
+		writeIfChanged(filepath.Join(dir, g+".lean"), text)
+		keep[g+".lean"] = true
+	}
+	if ents, err := os.ReadDir(dir); err == nil {
+		for _, e := range ents {
+			if !keep[e.Name()] {
+				os.Remove(filepath.Join(dir, e.Name())) // a module of an earlier run that no longer exists
+			}
+		}
+	}
+	writeIfChanged(out, src)
 	return t.errs
 }
 
@@ -1939,7 +1957,8 @@ func (t *htr) render() string {
 			break
 		}
 	}
-	// functions in dependency order; the members of a recursive cycle in one mutual block
+	// functions in dependency order, one module per group of source files: a construct outside the subset then breaks
+	// only the module of its own group (and the lemmas and properties that import it)
 	var names []string
 	for k := range t.fns {
 		names = append(names, k)
@@ -1967,12 +1986,87 @@ func (t *htr) render() string {
 	for _, k := range names {
 		visit(k, map[string]bool{})
 	}
-	var fb strings.Builder
+	t.modules = map[string]string{}
+	bodies := map[string]*strings.Builder{}
+	imports := map[string]map[string]bool{}
 	for _, k := range order {
-		fb.WriteString(t.function(t.fns[k]))
-		fb.WriteString("\n")
+		f := t.fns[k]
+		g := groupOf(f.file)
+		if bodies[g] == nil {
+			bodies[g] = &strings.Builder{}
+			imports[g] = map[string]bool{}
+		}
+		for c := range f.calls {
+			if cg := groupOf(t.fns[c].file); cg != g {
+				imports[g][cg] = true
+			}
+		}
+		bodies[g].WriteString(t.function(f))
+		bodies[g].WriteString("\n")
 	}
-	return b.String() + fb.String() + "end Gtree.SrcH\n"
+	if bodies["Core"] == nil {
+		bodies["Core"] = &strings.Builder{}
+		imports["Core"] = map[string]bool{}
+	}
+	var groups []string
+	for g := range bodies {
+		groups = append(groups, g)
+	}
+	sort.Strings(groups)
+	for _, g := range groups {
+		var m strings.Builder
+		m.WriteString("-- GENERATED by /verif/translate (heap mode, heap.go) from /repo's sources on every run of a check; do not edit.\n")
+		if g == "Core" {
+			m.WriteString(b.String())
+		} else {
+			m.WriteString("import Gtree.Generated.Heap.Core\n")
+			var is []string
+			for i := range imports[g] {
+				if i != "Core" {
+					is = append(is, i)
+				}
+			}
+			sort.Strings(is)
+			for _, i := range is {
+				m.WriteString("import Gtree.Generated.Heap." + i + "\n")
+			}
+			m.WriteString("set_option linter.unusedVariables false\nnamespace Gtree.SrcH\nopen Gtree\n\n")
+		}
+		m.WriteString(bodies[g].String())
+		m.WriteString("end Gtree.SrcH\n")
+		t.modules[g] = m.String()
+	}
+	var all strings.Builder
+	all.WriteString("-- GENERATED by /verif/translate (heap mode): every module of the heap-mode translation\n")
+	for _, g := range groups {
+		all.WriteString("import Gtree.Generated.Heap." + g + "\n")
+	}
+	return all.String()
+}
+
+// groupOf: the module a source file's functions are generated into
+func groupOf(file string) string {
+	switch file {
+	case "node.go", "file_considerer.go":
+		return "Core"
+	case "simple_tree_grower.go":
+		return "Grower"
+	case "simple_tree_mkdirer.go":
+		return "Mkdir"
+	case "simple_tree_walker.go":
+		return "Walk"
+	case "simple_tree_spreader.go":
+		return "Spread"
+	case "simple_tree_grow_spreader.go":
+		return "GrowSpread"
+	case "stack.go":
+		return "Builder"
+	case "tree_handler_programmably.go":
+		return "Arena"
+	case "wasm_tree_grower.go", "wasm_tree_spreader.go":
+		return "Wasm"
+	}
+	return "Misc"
 }
 
 func tyParams(f *hfn) string {
